@@ -32,6 +32,8 @@ type Case struct {
 	// Between is a case that is loaded and run between the first and the second run of this case's loaded
 	// scripts (set on replays of "earlier script re-run" failures).
 	Between *Case
+	// Fuel > 0 replaces the model's default statement budget (long-running cases).
+	Fuel int
 	// RaiseAtRec > 0: the signal of the run is raised while the RaiseAtRec-th probe call executes (see probe.Sig).
 	RaiseAtRec int
 	// NoHistory switches the second-run checks of Decide off (signal-driven cases, v1/v2 differentials).
@@ -246,6 +248,9 @@ func RunModel(c *Case, opts map[string]int, extra map[string]func(*model.Interp,
 	in.Scripts = c.Scripts
 	in.File = c.Root
 	in.Extra = extra
+	if c.Fuel > 0 {
+		in.Fuel = c.Fuel
+	}
 	err := in.Run(c.Scripts[c.Root])
 	out := ModelOut{Trace: in.Trace, Pt: pt, Touched: in.Touched, MapLoop: in.MapLoop, Stdout: in.Stdout.String()}
 	if err != nil {
